@@ -184,6 +184,11 @@ def build(case):
                 kw['nodelist'] = list(nodelist)
                 if sir and R0:
                     kw['X0'] = np.array([0.0 if (u in set(I0) or u in set(R0)) else 1.0 for u in nodelist])
+                if case.get('pairs0') and 'pair_based' in name:
+                    # the optional initial pair probabilities, given explicitly as what the default would be (independent nodes)
+                    X0v = kw['X0'] if 'X0' in kw else 1.0 - Y0
+                    kw['XY0'] = np.outer(X0v, Y0)
+                    kw['XX0'] = np.outer(X0v, X0v)
     else:
         # direct models fed with oracle ICs
         Ks = ic['Ks']
@@ -320,6 +325,17 @@ def random_ode_case(r, name, nmax=None):
         if ph:
             case['prehistory'] = ph
     case['ic_container'] = r.choice(['list', 'list', 'set', 'tuple', 'frozenset', 'dictkeys'])
+    case['pairs0'] = r.random() < 0.4
+    if name in ('SIS_heterogeneous_meanfield_from_graph', 'SIR_heterogeneous_meanfield_from_graph') and r.random() < 0.35 and desc['n'] >= 4:
+        # degree-class models are routinely fed the raw output of nx.configuration_model (parallel edges, self-loops): the degree counts
+        # edge ends.  (Only the models whose initial condition consists of degree-class counts: pair counts on a multigraph are not defined
+        # by the documentation.)
+        degs = [r.choice([1, 2, 2, 3, 4]) for _ in range(desc['n'])]
+        if sum(degs) % 2:
+            degs[0] += 1
+        mg = nx.configuration_model(degs, seed=r.randrange(10 ** 9))
+        case['graph'] = {'n': desc['n'], 'edges': sorted([sorted(e) for e in mg.edges()]), 'labels': desc['labels'], 'multi': True}
+        case.pop('prehistory', None)
     if desc['labels'] in gen.CONTAINER_LIKE and case['ic_container'] == 'tuple':
         case['ic_container'] = 'list'
     if case['tmin'] < 0 and r.random() < 0.35:
